@@ -99,8 +99,13 @@ def run(ctx):
             if rng.random() < 0.3:
                 # calendar corners of the subdirectory name: leap days, the non-leap century year 2100, year ends
                 Y, M, D = rng.choice([(2000, 2, 29), (2024, 2, 29), (2096, 2, 29), (2024, 2, 28), (2024, 3, 1), (2100, 2, 28), (2100, 3, 1),
-                                      (1999, 12, 31), (2000, 1, 1), (2038, 1, 19), (2099, 12, 31), (1980, 2, 29), (2023, 2, 28), (2023, 3, 1)])
+                                      (1999, 12, 31), (2000, 1, 1), (2038, 1, 19), (2099, 12, 31), (1980, 2, 29), (2023, 2, 28), (2023, 3, 1),
+                                      (1970, 1, 1), (1970, 1, 1), (2001, 9, 9)])
                 t_s = calendar.timegm((Y, M, D, rng.choice([0, 0, 12, 23]), rng.choice([0, 30, 59]), rng.choice([0, 59])))
+                if Y == 1970:
+                    t_s = rng.choice([0, 1, 2, 59, 3599])        # the first subdirectory periods after the epoch
+                elif Y == 2001:
+                    t_s = 10**9 - rng.choice([0, 1, 2])          # the second count of the file names gains a digit
             j = t_s * 1000 // fc
             if rng.random() < 0.5:
                 j = ((t_s // sc) * sc * 1000) // fc  # a subdirectory boundary
